@@ -441,5 +441,213 @@ theorem solvePy_of_not_WF (thr : Float) (fuel : Nat) (prune : Bool) (g : PyGame)
   obtain ⟨r, hr⟩ := validate_of_not_WF g h
   exact ⟨r, by rw [solvePy_eq, hr]⟩
 
+/-! ## `runOne` -/
+
+theorem runOne_failure (thr : Float) (fuel : Nat) (g : PyGame) (e : Err)
+    (h : solvePy thr fuel true g = .error e) (hv : isValueError e = true) :
+    runOne thr fuel g = .ok
+      (⟨g.players.length, countTransitions g, .error e, none⟩,
+       ⟨g.players.length, countTransitions g, .notSolved, none⟩) := by
+  unfold runOne
+  simp only [h, hv, if_true]
+
+theorem runOne_counts (thr : Float) (fuel : Nat) (g : PyGame) (e1 e2 : Entry)
+    (h : runOne thr fuel g = .ok (e1, e2)) :
+    e1.nStates = g.players.length ∧ e1.nTransitions = countTransitions g ∧
+    e2.nStates = g.players.length ∧ e2.nTransitions = countTransitions g := by
+  unfold runOne at h
+  repeat' split at h
+  all_goals first
+    | (cases h; exact ⟨rfl, rfl, rfl, rfl⟩)
+    | cases h
+
+/-! ## `dictSet`, `runGames` -/
+
+def keysOf (games : List (String × PyGame)) : List String :=
+  games.flatMap (fun ng => [ng.1, ng.1 ++ "_no_prune"])
+
+def lookup (d : List (String × Entry)) (k : String) : Option Entry :=
+  (d.find? (fun kv => kv.1 == k)).map (·.2)
+
+theorem dictSet_new {β : Type} (d : List (String × β)) (k : String) (v : β)
+    (h : k ∉ d.map (·.1)) : dictSet d k v = d ++ [(k, v)] := by
+  unfold dictSet
+  have : d.any (fun kv => kv.1 == k) = false := by
+    rw [List.any_eq_false]
+    intro x hx hk
+    exact h (List.mem_map.2 ⟨x, hx, by simpa using hk⟩)
+  simp [this]
+
+/-- one iteration of the loop in `runGames` -/
+def step (thr : Float) (fuel : Nat) (d : List (String × Entry)) (ng : String × PyGame) :
+    Except Err (List (String × Entry)) :=
+  match runOne thr fuel ng.2 with
+  | .ok p => .ok (dictSet (dictSet d ng.1 p.1) (ng.1 ++ "_no_prune") p.2)
+  | .error e => .error e
+
+theorem runGames_eq (thr : Float) (fuel : Nat) (games : List (String × PyGame)) :
+    runGames thr fuel games = games.foldlM (step thr fuel) [] := by
+  unfold runGames
+  congr 1
+  funext d ng
+  unfold step
+  show (runOne thr fuel ng.2 >>= fun p => _) = _
+  cases runOne thr fuel ng.2 <;> rfl
+
+/-- the two result entries of one game (nothing if its run aborts the batch) -/
+def entriesOf (thr : Float) (fuel : Nat) (ng : String × PyGame) : List (String × Entry) :=
+  match runOne thr fuel ng.2 with
+  | .ok p => [(ng.1, p.1), (ng.1 ++ "_no_prune", p.2)]
+  | .error _ => []
+
+theorem foldlM_step_iff (thr : Float) (fuel : Nat) (games : List (String × PyGame))
+    (d0 d : List (String × Entry)) (hnd : (d0.map (·.1) ++ keysOf games).Nodup) :
+    games.foldlM (step thr fuel) d0 = .ok d ↔
+      (∀ ng ∈ games, ∃ p, runOne thr fuel ng.2 = .ok p) ∧
+        d = d0 ++ games.flatMap (entriesOf thr fuel) := by
+  induction games generalizing d0 with
+  | nil => simp [pure, Except.pure, eq_comm]
+  | cons ng rest ih =>
+    rw [List.foldlM_cons]
+    simp only [keysOf, List.flatMap_cons] at hnd
+    cases hr : runOne thr fuel ng.2 with
+    | error e =>
+      simp only [step, hr, bind, Except.bind]
+      constructor
+      · intro h; cases h
+      · rintro ⟨h, _⟩
+        obtain ⟨p, hp⟩ := h ng (by simp)
+        rw [hr] at hp; cases hp
+    | ok p =>
+      have hk1 : ng.1 ∉ d0.map (·.1) := by
+        intro hm
+        rw [List.nodup_append] at hnd
+        exact hnd.2.2 _ hm _ (by simp) rfl
+      have hd1 : dictSet d0 ng.1 p.1 = d0 ++ [(ng.1, p.1)] := dictSet_new _ _ _ hk1
+      have hk2 : (ng.1 ++ "_no_prune") ∉ (d0 ++ [(ng.1, p.1)]).map (·.1) := by
+        intro hm
+        simp only [List.map_append, List.map_cons, List.map_nil, List.mem_append,
+          List.mem_singleton] at hm
+        rw [List.nodup_append] at hnd
+        rcases hm with hm | hm
+        · exact hnd.2.2 _ hm _ (by simp) rfl
+        · have := hnd.2.1
+          simp only [List.cons_append, List.nil_append, List.nodup_cons, List.mem_cons] at this
+          exact this.1 (Or.inl hm.symm)
+      have hd2 : dictSet (dictSet d0 ng.1 p.1) (ng.1 ++ "_no_prune") p.2 =
+          d0 ++ entriesOf thr fuel ng := by
+        rw [hd1, dictSet_new _ _ _ hk2]
+        simp [entriesOf, hr]
+      simp only [step, hr, bind, Except.bind, hd2]
+      have hnd' : ((d0 ++ entriesOf thr fuel ng).map (·.1) ++ keysOf rest).Nodup := by
+        simpa [entriesOf, hr, keysOf] using hnd
+      rw [ih _ hnd']
+      simp only [List.mem_cons, forall_eq_or_imp, List.flatMap_cons, List.append_assoc]
+      constructor
+      · rintro ⟨h1, h2⟩; exact ⟨⟨⟨p, hr⟩, h1⟩, h2⟩
+      · rintro ⟨⟨_, h1⟩, h2⟩; exact ⟨h1, h2⟩
+
+theorem lookup_eq_some_iff (d : List (String × Entry)) (k : String) (v : Entry)
+    (hnd : (d.map (·.1)).Nodup) : lookup d k = some v ↔ (k, v) ∈ d := by
+  unfold lookup
+  induction d with
+  | nil => simp
+  | cons kv d ih =>
+    obtain ⟨k', v'⟩ := kv
+    simp only [List.map_cons, List.nodup_cons] at hnd
+    by_cases hk : k' = k
+    · subst hk
+      simp only [List.find?_cons, beq_self_eq_true, Option.map_some, Option.some.injEq,
+        List.mem_cons, Prod.mk.injEq, true_and]
+      constructor
+      · intro h; exact Or.inl h.symm
+      · rintro (h | h)
+        · exact h.symm
+        · exact absurd (List.mem_map.2 ⟨_, h, rfl⟩) hnd.1
+    · have : (k' == k) = false := by simpa using hk
+      simp only [List.find?_cons, this, List.mem_cons, Prod.mk.injEq]
+      rw [ih hnd.2]
+      constructor
+      · intro h; exact Or.inr h
+      · rintro (h | h)
+        · exact absurd h.1.symm hk
+        · exact h
+
+theorem lookup_perm (d d' : List (String × Entry)) (hnd : (d.map (·.1)).Nodup)
+    (hp : d'.Perm d) (k : String) : lookup d' k = lookup d k := by
+  have hnd' : (d'.map (·.1)).Nodup := ((hp.map _).nodup_iff).2 hnd
+  apply Option.ext
+  intro v
+  rw [lookup_eq_some_iff _ _ _ hnd, lookup_eq_some_iff _ _ _ hnd', hp.mem_iff]
+
+theorem keys_flatMap_entriesOf (thr : Float) (fuel : Nat) (games : List (String × PyGame))
+    (h : ∀ ng ∈ games, ∃ p, runOne thr fuel ng.2 = .ok p) :
+    (games.flatMap (entriesOf thr fuel)).map (·.1) = keysOf games := by
+  induction games with
+  | nil => rfl
+  | cons ng rest ih =>
+    obtain ⟨p, hp⟩ := h ng (by simp)
+    simp only [List.flatMap_cons, List.map_append, keysOf]
+    rw [ih (fun x hx => h x (by simp [hx]))]
+    simp [entriesOf, hp, keysOf]
+
+theorem runGames_ok_iff (thr : Float) (fuel : Nat) (games : List (String × PyGame))
+    (d : List (String × Entry)) (hnd : (keysOf games).Nodup) :
+    runGames thr fuel games = .ok d ↔
+      (∀ ng ∈ games, ∃ p, runOne thr fuel ng.2 = .ok p) ∧
+        d = games.flatMap (entriesOf thr fuel) := by
+  rw [runGames_eq, foldlM_step_iff thr fuel games [] d (by simpa using hnd)]
+  simp
+
+theorem keysOf_perm (games games' : List (String × PyGame)) (hp : games'.Perm games) :
+    (keysOf games').Perm (keysOf games) := hp.flatMap_right _
+
+theorem runGames_total (thr : Float) (fuel : Nat) (games : List (String × PyGame))
+    (h : ∀ ng ∈ games, ∃ p, runOne thr fuel ng.2 = .ok p) :
+    ∃ d, runGames thr fuel games = .ok d := by
+  rw [runGames_eq]
+  generalize ([] : List (String × Entry)) = d0
+  induction games generalizing d0 with
+  | nil => exact ⟨d0, rfl⟩
+  | cons ng rest ih =>
+    obtain ⟨p, hp⟩ := h ng (by simp)
+    rw [List.foldlM_cons]
+    simp only [step, hp, bind, Except.bind]
+    exact ih (fun x hx => h x (by simp [hx])) _
+
+theorem runGames_isolated (thr : Float) (fuel : Nat) (games : List (String × PyGame))
+    (d : List (String × Entry)) (hnd : (keysOf games).Nodup)
+    (h : runGames thr fuel games = .ok d) (ng : String × PyGame) (hng : ng ∈ games) :
+    ∃ e1 e2, runOne thr fuel ng.2 = .ok (e1, e2) ∧ lookup d ng.1 = some e1 ∧
+      lookup d (ng.1 ++ "_no_prune") = some e2 := by
+  obtain ⟨hall, rfl⟩ := (runGames_ok_iff thr fuel games d hnd).1 h
+  obtain ⟨⟨e1, e2⟩, hp⟩ := hall ng hng
+  have hk : ((games.flatMap (entriesOf thr fuel)).map (·.1)).Nodup := by
+    rw [keys_flatMap_entriesOf thr fuel games hall]; exact hnd
+  refine ⟨e1, e2, hp, ?_, ?_⟩
+  · rw [lookup_eq_some_iff _ _ _ hk]
+    exact List.mem_flatMap.2 ⟨ng, hng, by simp [entriesOf, hp]⟩
+  · rw [lookup_eq_some_iff _ _ _ hk]
+    exact List.mem_flatMap.2 ⟨ng, hng, by simp [entriesOf, hp]⟩
+
+theorem runGames_order (thr : Float) (fuel : Nat) (games : List (String × PyGame))
+    (d : List (String × Entry)) (hnd : (keysOf games).Nodup)
+    (h : runGames thr fuel games = .ok d) : d.map (·.1) = keysOf games := by
+  obtain ⟨hall, rfl⟩ := (runGames_ok_iff thr fuel games d hnd).1 h
+  exact keys_flatMap_entriesOf thr fuel games hall
+
+theorem runGames_perm (thr : Float) (fuel : Nat) (games games' : List (String × PyGame))
+    (d : List (String × Entry)) (hnd : (keysOf games).Nodup) (hp : games'.Perm games)
+    (h : runGames thr fuel games = .ok d) :
+    ∃ d', runGames thr fuel games' = .ok d' ∧ ∀ k, lookup d' k = lookup d k := by
+  obtain ⟨hall, rfl⟩ := (runGames_ok_iff thr fuel games d hnd).1 h
+  have hnd' : (keysOf games').Nodup := ((keysOf_perm games games' hp).nodup_iff).2 hnd
+  have hall' : ∀ ng ∈ games', ∃ p, runOne thr fuel ng.2 = .ok p :=
+    fun ng hng => hall ng (hp.mem_iff.1 hng)
+  refine ⟨_, (runGames_ok_iff thr fuel games' _ hnd').2 ⟨hall', rfl⟩, ?_⟩
+  intro k
+  refine lookup_perm _ _ ?_ (hp.flatMap_right _) k
+  rw [keys_flatMap_entriesOf thr fuel games hall]; exact hnd
+
 end ValidateLemmas
 end CR
